@@ -66,6 +66,18 @@ def run(exe, drv, cases, timeout=3000):
     return impl, model, None
 
 
+def run_stress(exe, cases, stack_kb=256, deadline_ms=30000, timeout=1200):
+    """implementation only, in a worker whose native stack is limited to [stack_kb] KiB and with a long
+    per-case deadline: for inputs far deeper / longer than any model run can follow"""
+    text = "\n".join(cases) + "\n"
+    rc, out = vplib.sh("ulimit -s %d; exec %s" % (stack_kb, exe), input=text, timeout=timeout,
+                       env={"VERIF_DEADLINE_MS": str(deadline_ms)})
+    impl = out.splitlines()
+    if rc != 0 or len(impl) != len(cases):
+        return None, "pipeline harness (stress) rc=%s lines=%d/%d" % (rc, len(impl), len(cases))
+    return impl, None
+
+
 def same_modulo_literals(impl_res, model_res):
     a = impl_res.split(" BB=")[0]
     if a == model_res:
